@@ -90,6 +90,18 @@ Definition n_outputs : pmap -> N := count_of (blit_of "output_count_vint"%lb).
 Definition pset_serialize : pset -> bytes := serialize maxvec Tg Ti To.
 Definition pset_deserialize : bytes -> pres pset := deserialize maxvec Tg Ti To postg posti posto n_inputs n_outputs C07_PSET_CAP.
 
+(* PSET equality as the crate defines it: every field compares by value, except that TapTree's PartialEq compares the merkle
+   roots only.  On the canonical-bytes representation: equal entries, or two tap_tree entries with the same root. *)
+Definition entry_equiv (in_output : bool) (e' e : entry) : Prop :=
+  slot e' = slot e /\ ekey e' = ekey e /\
+  (evalue e' = evalue e \/
+   (in_output = true /\ slot e = idx C07_OUTPUT_FIELDS (blit_of "tap_tree"%lb) /\
+    taptree_root maxvec Hleaf Hbranch (evalue e') = taptree_root maxvec Hleaf Hbranch (evalue e) /\ taptree_root maxvec Hleaf Hbranch (evalue e) <> None)).
+Definition pset_equiv (p' p : pset) : Prop :=
+  Forall2 (entry_equiv false) (p_global p') (p_global p) /\
+  Forall2 (Forall2 (entry_equiv false)) (p_inputs p') (p_inputs p) /\
+  Forall2 (Forall2 (entry_equiv true)) (p_outputs p') (p_outputs p).
+
 (* ---- consistency of the generated tables (evaluated by the kernel in Proofs/PsetTables.v) ---- *)
 Definition names_needed_g : list blit := [blit_of "ver"%lb; blit_of "input_count_vint"%lb; blit_of "output_count_vint"%lb].
 Definition names_needed_o : list blit :=
